@@ -121,6 +121,7 @@ fn quoted_site(stderr: &str) -> Option<String> {
 pub fn build_err_tag(s: &str) -> String {
     if s.contains("empty samples mapping") { "empty".into() }
     else if let Some(r) = s.strip_prefix("unknown sample ") { format!("unknown {}", r.trim()) }
+    else if s == "unknown sample" { "unknown ".into() }     // the empty sample name (the caller trims the line)
     else if s.contains("one number of dimensions") { "proj-dims".into() }
     else if s.contains("cannot project from count") {
         let d: String = s.rsplit("dimension ").next().unwrap_or("").chars().take_while(|c| c.is_ascii_digit()).collect();
